@@ -53,6 +53,25 @@ theorem cli_output_sites :
        ("parseWordList", "log.Printf"), ("loadWordListFile", "log.Fatalln"),
        ("loadWordListFile", "log.Fatalln"), ("printUsage", "fmt.Println")] := by decide
 
+/-- Every call opgen makes into another package, or to a method, by function — the I/O and
+library surface the model of `main` accounts for: the word file is read whole
+(`ioutil.ReadFile`) and split at white space (`strings.Fields`), lists go through `NewWordList`,
+results leave through `fmt.Printf`/`fmt.Println`, failures through `log` and `os.Exit`. A change of
+this surface (a different way of reading the file, of printing the result, …) breaks this
+obligation; whether it breaks the property is then for the failing-input search to say. -/
+theorem cli_calls :
+    cliCalls =
+      ["charGenerator -> go.1password.io/spg.NewCharRecipe",
+       "loadWordListFile -> go.1password.io/spg.NewWordList", "loadWordListFile -> io/ioutil.ReadFile",
+       "loadWordListFile -> log.Fatalln", "loadWordListFile -> strings.Fields",
+       "main -> charactersCommand.Parse", "main -> flag.Parse", "main -> fmt.Printf", "main -> fmt.Println",
+       "main -> generator.Entropy", "main -> generator.Generate", "main -> log.Fatalln", "main -> os.Exit",
+       "main -> pwd.String", "main -> wordlistCommand.Parse",
+       "parseCharacterClasses -> strings.Replace", "parseCharacterClasses -> strings.Split",
+       "parseRecipe -> os.Exit", "parseWordList -> go.1password.io/spg.NewWordList",
+       "parseWordList -> log.Printf", "parseWordList -> os.Exit", "printUsage -> fmt.Println",
+       "wlGenerator -> go.1password.io/spg.NewWLRecipe"] := by decide
+
 theorem cli_no_args (t : Tables) : action t [] = .usage := rfl
 
 /-- A first argument other than the two sub-commands never denotes a recipe: usage (exit 2),
